@@ -46,6 +46,16 @@ def S_C06c():
     return len(r) != 0
 
 
+def S_C06d():
+    from nibabel.fileslice import fileslice
+    a = np.arange(12, dtype='u1').reshape(3, 4)
+    try:
+        fileslice(io.BytesIO(a.tobytes()), (-4,), a.shape, a.dtype)
+    except (ValueError, IndexError):
+        return False
+    return True
+
+
 def make_multi_ecat(path, nfr=3):
     import glob
     from nibabel.ecat import EcatImage, EcatHeader
